@@ -10,14 +10,17 @@ import (
 	abci "github.com/cometbft/cometbft/abci/types"
 	"github.com/cosmos/cosmos-sdk/client"
 	clienttx "github.com/cosmos/cosmos-sdk/client/tx"
+	codectypes "github.com/cosmos/cosmos-sdk/codec/types"
 	sdk "github.com/cosmos/cosmos-sdk/types"
 	"github.com/cosmos/cosmos-sdk/types/tx/signing"
 	authsigning "github.com/cosmos/cosmos-sdk/x/auth/signing"
+	authtx "github.com/cosmos/cosmos-sdk/x/auth/tx"
 	banktypes "github.com/cosmos/cosmos-sdk/x/bank/types"
 	"github.com/ethereum/go-ethereum/common"
 	ethtypes "github.com/ethereum/go-ethereum/core/types"
 
 	utiltx "github.com/haqq-network/haqq/testutil/tx"
+	haqqtypes "github.com/haqq-network/haqq/types"
 	evmtypes "github.com/haqq-network/haqq/x/evm/types"
 )
 
@@ -45,6 +48,15 @@ func c03Gen(r *rand.Rand, tier string) []Case {
 		n = 500
 	}
 	var out []Case
+	// every post-signing change on every route once, next to an untouched transaction of the same route
+	for _, route := range []string{"cos", "e712", "e712l"} {
+		c := Case{fmt.Sprintf("%s ? ? ? ? # k=1 signseq=0 chain=ok mutate=none", route)}
+		for _, mut := range []string{"memo", "amount", "fee", "gas", "to", "timeout", "extopt"} {
+			c = append(c, fmt.Sprintf("%s ? ? ? ? # k=1 signseq=0 chain=ok mutate=%s", route, mut))
+		}
+		c = append(c, fmt.Sprintf("%s ? ? ? ? # k=1 signseq=0 chain=other mutate=none", route), fmt.Sprintf("%s ? ? ? ? # k=1 signseq=0 chain=ok mutate=none", route))
+		out = append(out, c)
+	}
 	for i := 0; i < n; i++ {
 		var c Case
 		for j := 0; j < 6+r.Intn(10); j++ {
@@ -60,7 +72,7 @@ func c03Gen(r *rand.Rand, tier string) []Case {
 					pick(r, []string{"nonce", "price", "tip", "gas", "to", "value", "data", "accesslist", "chainid", "v", "r", "s", "foreignchain"})))
 			case x < 16:
 				route := pick(r, []string{"cos", "cos", "e712", "e712l"})
-				mut := pick(r, []string{"none", "none", "none", "memo", "amount", "fee", "gas", "to", "timeout"})
+				mut := pick(r, []string{"none", "none", "none", "memo", "amount", "fee", "gas", "to", "timeout", "extopt"})
 				seq := pick(r, []string{"0", "0", "0", "1", "-1"})
 				chain := pick(r, []string{"ok", "ok", "ok", "other"})
 				if route != "cos" {
@@ -269,6 +281,17 @@ func c03Exec(c Case) (outs []string, fails []Failure, tags []string) {
 					case "timeout":
 						builder.SetTimeoutHeight(1_000_000)
 						intact = "0"
+					case "extopt":
+						// a critical extension option the ante handler admits (the dynamic-fee option: it sets the tip the fee
+						// checker charges) added after signing
+						opt, e := codectypes.NewAnyWithValue(&haqqtypes.ExtensionOptionDynamicFeeTx{MaxPriorityPrice: sdkmath.NewInt(1_000_000)})
+						if e != nil {
+							panic(e)
+						}
+						if eb, ok := builder.(authtx.ExtensionOptionsTxBuilder); ok {
+							eb.SetExtensionOptions(opt)
+							intact = "0"
+						}
 					}
 					var err error
 					bz, err = txCfg.TxEncoder()(builder.GetTx())
@@ -397,6 +420,6 @@ func init() {
 		NonTrivial: func(tags []string) bool {
 			return (hasTag(tags, "eth-accept") || hasTag(tags, "cos-accept") || hasTag(tags, "e712-accept")) && (hasTag(tags, "eth-reject") || hasTag(tags, "cos-reject") || hasTag(tags, "e712-reject") || hasTag(tags, "mut-code-true"))
 		},
-		Rule: "real transactions through BaseApp.DeliverTx on the application (full ante chains of the three routes): Ethereum-route transactions of the three types carrying one to three messages with nonces seq+{0,1,2}, duplicated, skipped and out of order, replays of the last accepted one; every single-field change (nonce, gas price / tip / cap, gas, to, value, data, access list, chain id, v, r, s) of a signed Ethereum transaction with the signature kept, and a valid signature made for another chain id; Cosmos MsgSend transactions signed in direct mode and through both EIP-712 variants, signed with the current, a future and a past sequence, for this and another chain id, tampered after signing (memo, amount, recipient, fee, gas, timeout height), and replays; every verdict and the sequence afterwards is compared with the Lean model and the signer's sequence and balance are checked to be untouched by anything not accepted; non-trivial = a case with an accepted and a refused transaction; distinct = distinct op sequences",
+		Rule: "real transactions through BaseApp.DeliverTx on the application (full ante chains of the three routes): Ethereum-route transactions of the three types carrying one to three messages with nonces seq+{0,1,2}, duplicated, skipped and out of order, replays of the last accepted one; every single-field change (nonce, gas price / tip / cap, gas, to, value, data, access list, chain id, v, r, s) of a signed Ethereum transaction with the signature kept, and a valid signature made for another chain id; Cosmos MsgSend transactions signed in direct mode and through both EIP-712 variants, signed with the current, a future and a past sequence, for this and another chain id, tampered after signing (memo, amount, recipient, fee, gas, timeout height, an added dynamic-fee extension option), and replays; every verdict and the sequence afterwards is compared with the Lean model and the signer's sequence and balance are checked to be untouched by anything not accepted; non-trivial = a case with an accepted and a refused transaction; distinct = distinct op sequences",
 	})
 }
